@@ -371,6 +371,7 @@ class World:
         self.transitions = set()
         self.nontrivial = False
         self.seq = 0
+        self.last_op_events = self.last_op_writes = 0
         self.fs.install([sp_p2s, sp_doc, sp_sax])
 
     def close(self):
@@ -414,6 +415,8 @@ class World:
             if fs.crashed:
                 status = "crashed"          # a crash swallowed by a bare `except:` is still a crash
             fired = list(fs.fired)
+            self.last_op_events = fs.op_events
+            self.last_op_writes = fs.op_kind.get("write", 0)
         finally:
             fs.end_op()
         for k in fired:
@@ -586,9 +589,11 @@ class World:
         if h is None:
             raise HarnessError("unknown op %r" % (op["op"],))
         io0 = self.fs.io_seq
+        self.last_op_events = self.last_op_writes = 0
         st = h(idx, op, entry)
         entry["status"] = st or "ok"
         entry["io_events"] = self.fs.io_seq - io0
+        entry["op_events"], entry["op_writes"] = self.last_op_events, self.last_op_writes
         self.log.append(entry)
         self.bump(self.counters, "op:" + op["op"])
         self.note_state(op["op"])
@@ -1014,7 +1019,8 @@ class World:
             "io_events": self.fs.io_seq,
         }
         slog = [{"seq": e["seq"], "op": e["op"], "status": e["status"], "io": e["io_events"],
-                 "wrote": e.get("wrote")} for e in self.log]
+                 "wrote": e.get("wrote"), "op_events": e.get("op_events", 0), "op_writes": e.get("op_writes", 0)}
+                for e in self.log]
         fsdig = sorted((p, H(bytes(n.data))) for p, n in self.fs.files.items())
         return {"digest": digest_of([slog, fsdig, sorted(self.fs.dirs)]), "violations": self.violations,
                 "stats": stats, "log": slog}
@@ -1500,3 +1506,54 @@ EXPECTED_PROBES = [
     "torn_or_unacknowledged_file_overwritten", "same_names_list_object_passed_to_two_calls",
     "add_path_into_element_handle", "browser_opened", "document_loaded_from_wsvg", "document_loaded_from_sax",
 ]
+
+
+
+# ----------------------------------------------------------------------------------------------
+# per-seed fault sweep (DESIGN 4.4): for some seeds, one write operation of the fault-free version of
+# the history is re-run with a crash at EVERY I/O event of that operation and an I/O error at EVERY
+# raw write of it
+# ----------------------------------------------------------------------------------------------
+
+SWEEP_ONE_IN = {"quick": 12, "thorough": 5}
+
+
+def derived(run_seed, tier, hist):
+    if H("sweep", run_seed) % SWEEP_ONE_IN.get(tier, 12) != 0:
+        return []
+    base_ops = []
+    for op in hist["ops"]:
+        o = dict(op)
+        o.pop("faults", None)
+        base_ops.append(o)
+    base = dict(hist, ops=base_ops, config=dict(hist["config"], faulting=True), seed=run_seed)
+    r = replay(base, keep_log=True)
+    if r["violations"]:
+        return [(base, _strip(r))]
+    cands = [i for i, e in enumerate(r["log"]) if e["op"]["op"] in WRITE_OPS and e["status"] == "ok"
+             and e["op_events"] > 0]
+    if not cands:
+        return []
+    target = cands[H("sweep-op", run_seed) % len(cands)]
+    ev, wr = r["log"][target]["op_events"], r["log"][target]["op_writes"]
+    plans = [[{"kind": "crash", "n": n}] for n in range(1, min(ev, 80) + 1)]
+    for n in range(1, min(wr, 40) + 1):
+        plans.append([{"kind": "eio_write", "n": n, "k": (3 if n % 2 else 0)}])
+        plans.append([{"kind": "short_write", "n": n, "k": 1}])
+    for kind in ("eacces_open", "emfile_open", "eio_close"):
+        plans.append([{"kind": kind, "n": 1}])
+        plans.append([{"kind": kind, "n": 2}])
+    out = []
+    for plan in plans:
+        ops = list(base_ops)
+        ops[target] = dict(base_ops[target], faults=plan)
+        h = dict(base, ops=ops, sweep={"of_seed": run_seed, "op_index": target, "plan": plan})
+        out.append((h, _strip(replay(h))))
+    return out
+
+
+def _strip(res):
+    res.pop("log", None)
+    st = res["stats"]
+    st["probes"] = dict(st.get("probes", {}), fault_sweep_run=1)
+    return res
